@@ -7,7 +7,10 @@
   code through the same orders):
     * `ordf`, `dordf` : as in Cg.lean / IdStar.lean
     * `kordf`         : order in which the keys of `set(new_event) - set(outcomes) - set(conditions)` are inserted
-                        into the new outcome / condition dicts (`get_new_outcomes_and_conditions`)
+                        into the new outcome / condition dicts (`get_new_outcomes_and_conditions`).  Since `fix:`
+                        "IDC* re-associates the merged keys in sorted order" the code sorts that set by
+                        `_variable_sort_key`, i.e. `kordf = orderDistrict false` (what the driver passes); the
+                        parameter is kept because every theorem holds for every `SubsetOrder kordf`.
   Dicts are association lists in insertion order (`Event`); the `for condition in new_conditions` loop follows it.
   The recursion of line 4 is modelled with a fuel (see Props/C08.lean).
 -/
